@@ -3,7 +3,6 @@ package rules
 import (
 	"go/ast"
 	"strings"
-
 )
 
 // pooledStorageDoesNotEscape (C05.23): a buffer that goes back to a sync.Pool
